@@ -6,7 +6,9 @@ Driver for C01/C02: reads one S-expression program per line on stdin
     <name> <stdout as hex | -> <outcome>
 
 outcome = `exit:<status>` | `trap:<kind>` | `fatal:<hex message>` | `stuck:<hex message>` | `oof`
-| `parse-error:<hex message>`.   Optional argument: the fuel (evaluation depth), default 20000.
+| `parse-error:<hex message>`.   Optional first argument: the fuel (evaluation depth), default 20000.
+With the extra argument `pos` two more fields follow: the source line of the operation that was being
+evaluated when the run ended and the dynamic call chain `callee@call-site-line,...` (innermost first) – C14.
 -/
 open Dora.Mini
 
@@ -22,25 +24,30 @@ def outcomeStr : Outcome → String
   | .stuck m => "stuck:" ++ toHex m
   | .outOfFuel => "oof"
 
-def respond (fuel : Nat) (line : String) : String :=
+/-- C14: where the run ended: `<line> <fn>@<call-site line>,...` (innermost frame first; `-` = empty chain) -/
+def posStr (s : St) : String :=
+  let chain := s.stack.map fun (f, l) => s!"{f}@{l}"
+  s!"{s.line} " ++ (if chain.isEmpty then "-" else ",".intercalate chain)
+
+def respond (fuel : Nat) (pos : Bool) (line : String) : String :=
   match Sexp.parseAll line with
   | .error e => "? - parse-error:" ++ toHex e
   | .ok [sx] =>
     match readProg sx with
     | .error e => "? - parse-error:" ++ toHex e
     | .ok p =>
-      let (out, o, _) := runProg p fuel
-      p.name ++ " " ++ toHex out ++ " " ++ outcomeStr o
+      let (out, o, st) := runProg p fuel
+      p.name ++ " " ++ toHex out ++ " " ++ outcomeStr o ++ (if pos then " " ++ posStr st else "")
   | .ok _ => "? - parse-error:" ++ toHex "expected exactly one form per line"
 
-partial def loop (fuel : Nat) (h : IO.FS.Stream) (out : IO.FS.Stream) : IO Unit := do
+partial def loop (fuel : Nat) (pos : Bool) (h : IO.FS.Stream) (out : IO.FS.Stream) : IO Unit := do
   let line ← h.getLine
   if line.isEmpty then return ()
-  if line.trimAscii.toString.isEmpty then loop fuel h out else
-  out.putStrLn (respond fuel line)
+  if line.trimAscii.toString.isEmpty then loop fuel pos h out else
+  out.putStrLn (respond fuel pos line)
   out.flush
-  loop fuel h out
+  loop fuel pos h out
 
 def main (args : List String) : IO Unit := do
   let fuel := (args.head?.bind String.toNat?).getD 20000
-  loop fuel (← IO.getStdin) (← IO.getStdout)
+  loop fuel (args.contains "pos") (← IO.getStdin) (← IO.getStdout)
